@@ -154,19 +154,31 @@ DEEP = {"zzSqrt": ["zzSqrt", "zzSqrt_deep"], "zzDiv": ["zzDiv", "zzMod", "zzDiv_
         "zzPowerMod": ["zzPowerMod", "zzPowerMod_deep"]}
 for f, fns in DEEP.items():
     for n, m in ((1, 1), (2, 1), (2, 2), (3, 2), (4, 4), (6, 3), (8, 8)):
-        if f in ("zzSqrt", "zzMulMod", "zzRed", "zzInvMod") and n != m and not (f == "zzSqrt"):
+        if f in ("zzMulMod", "zzRed", "zzInvMod") and n != m:
             continue
         if f == "zzDiv" and n < m:
             continue
         GROUPS.append(G("deep.%s.n%d.m%d.search" % (f, n, m), "harness/C07/deep_zz.c", "h_deep", ZZALL,
                         defs=["N=%d" % n, "M=%d" % m, "F_" + f], level="N", backend="native", search=60000, fn=fns,
                         note="native ASan/UBSan run on a scratch stack of exactly f_deep() octets, seeded search over operand values; NOT proof"))
-for f, n, m, k in (("zzSqrt", 1, 1, 3), ("zzSqrt", 2, 2, 2), ("zzSqrt", 3, 3, 2), ("zzDiv", 1, 1, 3), ("zzDiv", 2, 1, 3), ("zzDiv", 2, 2, 3), ("zzDiv", 3, 2, 3)):
-    GROUPS.append(G("deep.%s.n%d.m%d" % (f, n, m), "harness/C07/deep_zz.c", "h_deep", ZZALL, defs=["N=%d" % n, "M=%d" % m, "F_" + f],
-                    level="B", bound="operand size n=%d, m=%d words; loops unwound %d times WITHOUT unwinding assertions (paths with more iterations are not explored)" % (n, m, k + n),
-                    unwind=k + n, spec_unwind=8, extra=["--no-unwinding-assertions"], search=60000, timeout=900, fn=DEEP[f], mem_gb=12,
-                    checks=["--bounds-check", "--pointer-check", "--pointer-overflow-check"],
-                    note="real callees; memory-safety and ASSERT obligations on a stack of exactly f_deep() octets"))
+# measured: the same harness under CBMC with the real zzDiv/zzMod bodies gives no answer in 900 s even for n = 1
+# (Knuth division); so the CBMC side of regime (b) is modular: heavy callees replaced by the memory side of their contracts.
+CALC = {"zzSqrt": (["zzSqrt", "zzSqrt_deep"], [("zzDiv", "c_zzDiv")]),
+        "zzMulMod": (["zzMulMod", "zzSqrMod", "zzMulWMod", "zzMulMod_deep", "zzSqrMod_deep", "zzMulWMod_deep"],
+                     [("zzMul", "c_zzMul"), ("zzSqr", "c_zzSqr"), ("zzMod", "c_zzMod")]),
+        "zzRed": (["zzRed", "zzRedBarrStart", "zzRedBarr", "zzRedBarr_fast", "zzRed_deep", "zzRedBarrStart_deep", "zzRedBarr_deep"],
+                  [("zzMul", "c_zzMul"), ("zzMod", "c_zzMod"), ("zzDiv", "c_zzDiv")])}
+for f, (fns, repl) in CALC.items():
+    for n in (1, 2, 3, 4, 6, 8):
+        if f == "zzSqrt" and n == 8:
+            continue      # measured: SAT out of memory at 12 GB
+        GROUPS.append(G("calc.%s.n%d" % (f, n), "harness/C07/calc_zz.c", "h_calc_" + f, ZZALL, defs=["N=%d" % n], replace=repl,
+                        level="B", bound="operand size n = %d words; data-dependent loops unwound %d times without unwinding assertions" % (n, (n + 4) if f == "zzSqrt" else (4 * n + 8)),
+                        unwind=(n + 4) if f == "zzSqrt" else (4 * n + 8), extra=["--no-unwinding-assertions"], native=False, timeout=900, fn=fns, mem_gb=12,
+                        tier="quick" if n in (2, 4) else "thorough",
+                        note="keep/deep calculus: real caller body on a stack of exactly f_deep() octets; callees %s replaced by the "
+                             "memory side of their contracts (w_ok(stack, callee_deep(args)) is an obligation at each call site)"
+                             % ", ".join(a for a, b in repl)))
 # the zz_add.c contracts (defined in the C05 plan) belong to this property as well
 GROUPS += [g for g in _c05.GROUPS if g["name"].startswith("contract.zz_add")]
 TRUSTED = []
